@@ -1,0 +1,14 @@
+//go:build verif
+
+package downloader
+
+import "helm.sh/helm/v4/internal/urlutil"
+
+// VerifURLEqual exposes internal/urlutil.Equal (used by scanReposForURL and findChartURL)
+// to the verification harness. Only compiled with -tags verif.
+func VerifURLEqual(a, b string) bool { return urlutil.Equal(a, b) }
+
+// VerifNormalizeURL exposes normalizeURL (used by Manager.findChartURL).
+func VerifNormalizeURL(baseURL, urlOrPath string) (string, error) {
+	return normalizeURL(baseURL, urlOrPath)
+}
